@@ -106,6 +106,17 @@ pub fn generate(g: &mut G, _index: u64) -> Scenario {
             ops.insert(at, Op::Drop { h: s });
         }
     }
+    // sometimes an unrelated service is looked up for the first time while publications are under
+    // way (the registry is shared by all service types, the brokers included)
+    if g.chance(1, 4) {
+        sc.svc_a.on_start = vec![Work::Yield(g.range(1, 3) as u32)];
+        let mut ops = vec![];
+        if g.chance(1, 2) {
+            ops.push(Op::Yield(g.range(1, 6) as u32));
+        }
+        ops.push(Op::FromRegistry { svc: Tag::SvcA, to: 0 });
+        sc.clients.push(ClientSpec { ops });
+    }
     sc.sched = g.sched(false);
     sc.settle_ns = 50;
     sc
